@@ -97,11 +97,34 @@ def check_worker_bookkeeping(ctx: Ctx) -> None:
         t = kwarg(c, 'timeout', 1)
         o = origin(f, t) if t is not None else None
         if isinstance(o, ast.Call) and dotted(o.func) == 'max' and len(o.args) >= 2:
-            names = [set(x.id for x in ast.walk(a) if isinstance(x, ast.Name)) for a in o.args]
-            srcs = [src(a) for a in o.args]
-            ok = any(ctv in ns for ns in names) and any('idle_timeout' in s for s in srcs)
+            # what each argument depends on, through locals however often they are (re)bound
+            deps = [_depends_on(f, a) for a in o.args]
+            ok = any(ctv in d[0] for d in deps) and any('idle_timeout' in d[1] for d in deps)
     ctx.ob('R7.5', 'worker: the dequeue timeout is max(idle timeout, remaining consistency time)', ok, loc=f.loc(wf[0]) if wf else f.loc(),
            construct=construct(f, 'config:timeout=max(idle, consistency)'))
+
+
+def _depends_on(f, e: ast.AST, depth: int = 4) -> tuple[set, str]:
+    """(names, source text) an expression depends on, following locals through all their bindings."""
+    names = {x.id for x in ast.walk(e) if isinstance(x, ast.Name)}
+    text = src(e, 300)
+    seen = set()
+    for _ in range(depth):
+        new = names - seen
+        if not new:
+            break
+        seen |= new
+        for n in walk_no_defs(f.node):
+            tgts, val = [], None
+            if isinstance(n, ast.Assign):
+                tgts, val = n.targets, n.value
+            elif isinstance(n, ast.AnnAssign) and n.value is not None:
+                tgts, val = [n.target], n.value
+            for t in tgts:
+                if isinstance(t, ast.Name) and t.id in new and val is not None:
+                    names |= {x.id for x in ast.walk(val) if isinstance(x, ast.Name)}
+                    text += ' ' + src(val, 300)
+    return names, text
 
 
 def _fmt(v: dict) -> str:
@@ -145,8 +168,11 @@ def check_version_flow(ctx: Ctx) -> None:
     for a in walk_no_defs(pc.node):
         if isinstance(a, ast.Assign) and isinstance(a.targets[0], ast.Tuple) and isinstance(a.value, ast.Await) and is_call_to(repo, pc, a.value.value, 'patching.patch_obj'):
             body_name = dotted(a.targets[0].elts[0])
-    from_body = [a for a in assigns if body_name and body_name in {x.id for x in ast.walk(a.value) if isinstance(x, ast.Name)}
-                 and any(isinstance(x, ast.Constant) and x.value == 'resourceVersion' for x in ast.walk(a.value))]
+    from_body = []
+    for a in assigns:
+        names, text = _depends_on(pc, a.value)
+        if body_name and body_name in names and "'resourceVersion'" in text and not isinstance(a.value, ast.JoinedStr):
+            from_body.append(a)
     sentinel = [a for a in assigns if isinstance(a.value, ast.JoinedStr) and nm in {x.id for x in ast.walk(a.value) if isinstance(x, ast.Name)}]
     others = [a for a in assigns if a not in from_body and a not in sentinel]
     ctx.ob('R7.3', 'patch_and_check: the version is metadata.resourceVersion of the PATCH response body', bool(from_body) and not others and nm is not None,
